@@ -142,7 +142,7 @@ runs the check through `VERIF_REPO`, expects exit 1 and removes the copy.
 
 ### 7.5 Sensitivity: breaking changes seeded by independent sub-agents (`seeded/<name>/`)
 
-Five rounds of twenty fresh sub-agents (one per property and round) were given only the
+Six rounds of twenty fresh sub-agents (one per property and round) were given only the
 property text and a scratch git worktree under /tmp - nothing from /verif; in the later
 rounds also the one-line summaries of the earlier rounds' changes with the instruction to find
 something of a different kind - and asked for up to two plausible changes that break the
@@ -152,7 +152,7 @@ all 752 baseline tests pass with the change) and are kept with `patch.diff`, `de
 `meta.json`. ''' + str(total - missed) + ''' were caught by the quick tier as it stood when they arrived; **''' + str(missed) + ''' were
 missed and led to the strengthenings listed below**, after which all ''' + str(total) + ''' are caught by the
 quick tier of their own property (`tools/mutants.py --seeded`). Names `Cxx_n` are round 1,
-`Cxx_bn` round 2, `Cxx_cn` round 3 (which also suggested kinds of change: cooperating sites, configuration constants, numeric edge values, argument types, duck-typed streams, shared state between objects, half-updated objects after an error), `Cxx_dn` round 4 (kinds suggested: data-dependent numeric paths such as overflow and non-finite values, sizes beyond an internal block length, optional header fields, file-name conventions, resource handling such as memory maps, interactions of three parameters). Four round-4 seeds (C09_d1, C10_d1, C17_d1, C17_d2) met a working tree that I had already strengthened on my own; the committed checks of that moment missed them and they are counted as misses. Seeds are also re-run at VERIF_SEED 2 and 3; two (C06_c2, C14_b1) were caught at seed 1 but not at seed 3, so the lowered-threshold configurations were made five times more frequent and more extreme (down to 1e-6) and signal lengths on the frame-count boundaries (whole and half multiples of the shift, +-1) are now generated on purpose. `Cxx_en` is round 5, whose brief asked the agent to list the phrases of the statement that no earlier change had touched and to break one of those (25 seeds, 11 first missed - the highest miss rate since round 1, so the steer worked).
+`Cxx_bn` round 2, `Cxx_cn` round 3 (which also suggested kinds of change: cooperating sites, configuration constants, numeric edge values, argument types, duck-typed streams, shared state between objects, half-updated objects after an error), `Cxx_dn` round 4 (kinds suggested: data-dependent numeric paths such as overflow and non-finite values, sizes beyond an internal block length, optional header fields, file-name conventions, resource handling such as memory maps, interactions of three parameters). Four round-4 seeds (C09_d1, C10_d1, C17_d1, C17_d2) met a working tree that I had already strengthened on my own; the committed checks of that moment missed them and they are counted as misses. Seeds are also re-run at VERIF_SEED 2 and 3; two (C06_c2, C14_b1) were caught at seed 1 but not at seed 3, so the lowered-threshold configurations were made five times more frequent and more extreme (down to 1e-6) and signal lengths on the frame-count boundaries (whole and half multiples of the shift, +-1) are now generated on purpose. `Cxx_en` is round 5, whose brief asked the agent to list the phrases of the statement that no earlier change had touched and to break one of those (25 seeds, 11 first missed - the highest miss rate since round 1, so the steer worked). `Cxx_fn` is round 6 (28 seeds, 11 first missed): the brief asked for cooperating edits, reordered operations, 'equivalent' library calls that differ on ties / empty input, text handling, path forms, aliased results.
 
 | seed | change | first quick run | strengthening |
 |------|--------|-----------------|---------------|
@@ -193,6 +193,17 @@ is not representable discarded rather than judged; (xviii) runs of exact zeros i
 of a statement gets its own path: "loaded statistics" (C16 through a file), "padding" in every numpy mode (C15
 Stack), a refused call with another dtype (C04), a second writer to the same path (C17), public attributes
 assigned after construction (C20).
+From round 6: (xx) **arrays belong to the caller**: a chunk handed to compute_chunk is copied into a re-used buffer
+that is overwritten after the call (C01), every array ever given to an instance is compared with a private copy after
+every later step, writable or not (C04), and arrays returned by bank queries are post-processed in place before
+the judged query (C05-C07, as already in C20); (xxi) widths at which a grid built with a floating-point step miscounts
+(`fragile_widths`, about a fifth of all widths: np.arange(0, 1, 1/w) has w+1 points for w = 49, 98, 103 ...) are
+drawn on purpose in C06, C07 and C20; (xxii) file and path forms: bare file names relative to the current directory
+(C17), directories with blanks / tabs in list files (C09), --file-prefix / --file-suffix (C10), NUL / newline header
+padding (C12), statistics written by another program (C16), non-native byte order (C18), the empty string as an
+option value (C11); (xxiii) a seed caught at VERIF_SEED 1 but missed at 2 or 3 is a weak catch: six such seeds led to
+explicit generators (round-vertex linear banks, Bark banks with 20+ filters, tie lengths for even and odd multiples,
+per-frame tolerances in C14, fragile widths) instead of hoping for the draw.
 '''
 p = os.path.join(H, "DESIGN.md")
 s = open(p).read()
